@@ -145,6 +145,31 @@ impl BuilderS {
 //@@ end
 }
 
+// util/producer.rs, util/consumer.rs: the constructors the stand-ins of the prelude restate, checked on the real bodies
+impl Producer {
+//@@ fn file=fe2o3-amqp/src/util/producer.rs impl=`impl<State> Producer<State>` name=new as=producer_new_real
+//@@ generics
+//@@ param notifier : NotifyArc
+//@@ param state : FlowArc
+//@@ spec
+    ensures r.notifier == notifier, r.state == state,          // [C08.wiring.producer-as-given]
+//@@ end
+}
+impl Consumer {
+//@@ fn file=fe2o3-amqp/src/util/consumer.rs impl=`impl<State> Consumer<State>` name=new as=consumer_new_real
+//@@ generics
+//@@ param notifier : NotifyArc
+//@@ param state : FlowArc
+//@@ spec
+    ensures r.notifier == notifier, r.state == state,          // [C08.wiring.consumer-as-given]
+//@@ end
+//@@ fn file=fe2o3-amqp/src/util/consumer.rs impl=`impl<State: Clone> Consumer<State>` name=producer as=producer_real
+//@@ generics
+//@@ ret Producer
+//@@ spec
+    ensures r.state.id() == self.state.id(), r.notifier.id() == self.notifier.id(),       // [C08.wiring.grant-wakes-this-links-waiter] the producer made from a link's consumer (re-attach) applies flows to the same state and wakes the same notifier
+//@@ end
+}
 // ---------------------------------------------------------------------------------------------------------------
 // re-attach (link/sender.rs, link/receiver.rs, link/shared_inner.rs): the relay built for a link that attaches again
 impl Consumer { pub fn producer(&self) -> (r: Producer) ensures r.state.id() == self.state.id(), r.notifier.id() == self.notifier.id() { Producer { notifier: self.notifier.clone(), state: self.state.clone() } } }
